@@ -17,7 +17,7 @@ use std::collections::{HashMap, HashSet};
 use std::panic::{catch_unwind, AssertUnwindSafe};
 use vh::util::*;
 
-const BLOB_HEX_MAX: usize = 55 * 80;
+const BLOB_HEX_MAX: usize = 55 * 200;
 
 #[derive(Clone, Debug)]
 enum Loc {
